@@ -22,7 +22,7 @@ ASSUMPTIONS = [
     "masses compared at 1e-6 relative; 'determined' decided with exact rationals",
     "the statement quantifies over positive masses and percentages: 0 % components are not enumerated",
 ]
-BOUNDS = {"quick": "1..5 components, absolute in {60,150,1e3,0.5}, percent in {10,25,50,75,90,100,110,-5,33.3,12.5,2.5} + signed exponents, external mass none/consistent/inconsistent", "thorough": "as quick + absolute 12345.678, percent 0.1 / 99.9"}
+BOUNDS = {"quick": "1..5 components, absolute in {60,150,1e3,0.5,400000}, percent in {10,25,50,75,90,100,110,-5,33.3,12.5,2.5} + signed exponents, external mass none/consistent/inconsistent", "thorough": "as quick + absolute 12345.678, percent 0.1 / 99.9"}
 CASE_TIMEOUT = {"quick": 300, "thorough": 1800}
 TOK = ["C", "CC", "CCC", "CCCC", "CCCCC"]
 
@@ -31,7 +31,7 @@ def configs(tier):
     absv = ["60", "150"]
     pct = ["10", "25", "50", "75", "90", "100", "110", "-5"]
     sci = [("a", "1.5e+2"), ("p", "2.5e+1"), ("p", "5e-1"), ("a", "6e-1"), ("p", "1e-3")]  # signed exponents
-    absv += ["1e3", "0.5"]
+    absv += ["1e3", "0.5", "400000"]
     pct += ["33.3", "12.5", "2.5"]
     if tier == "thorough":
         absv += ["12345.678"]
@@ -143,8 +143,11 @@ def cfg_class(cfg, ext):
 def eval_case(kind, data):
     import gbigsmiles
 
+    import numpy as np
+
     res = new_result()
     classes = set()
+    nconv = [0]
     for cfg in data["cfgs"]:
         cfg = [tuple(x) for x in cfg]
         text = text_of(cfg)
@@ -153,7 +156,10 @@ def eval_case(kind, data):
             res["states"] += 1
             res["traces"] += 1
             res["transitions"] += 1
-            st, obj = run_limited(lambda: gbigsmiles.System(text, None if ext is None else float(ext)), (), 10)
+            # the caller's total arrives as a Python float, a NumPy float or an integer type (np.sum(...) results are common)
+            nconv[0] += 1
+            conv = (float, np.float64, lambda x: (np.int64(float(x)) if float(x).is_integer() else np.float64(x)), lambda x: (int(float(x)) if float(x).is_integer() else float(x)))[nconv[0] % 4]
+            st, obj = run_limited(lambda: gbigsmiles.System(text, None if ext is None else conv(ext)), (), 10)
             classes.add(f"{ref[0]}:{'raise' if st != 'ok' else 'obj'}")
             shape = cfg_class(cfg, ext)
             if st in ("timeout", "memory"):
